@@ -6,8 +6,13 @@ package main
 
 import (
 	"context"
+	"crypto/ed25519"
+	"crypto/sha256"
 	"fmt"
+	"runtime"
 	"sort"
+	"sync"
+	"sync/atomic"
 	"time"
 
 	"github.com/tonkeeper/tongo/liteclient"
@@ -190,6 +195,11 @@ func runC12Alive(mode int) (events []sx.V, fails []c12Fail, bad string) {
 // (pings received, pongs written, completed handshakes) and inserts one 'tick
 // per second of wall clock (rounded: the client's timers started a moment before t0).
 func c12TimedHistory(srv *c12Server, t0 time.Time, log []c12Timed, pinger bool) (events []sx.V) {
+	return c12TimedHistoryUp(srv, t0, log, pinger, false)
+}
+
+// authUp: the connection is up when the server has verified the authentication
+func c12TimedHistoryUp(srv *c12Server, t0 time.Time, log []c12Timed, pinger, authUp bool) (events []sx.V) {
 	l := srv.lns[0]
 	srv.mu.Lock()
 	for _, t := range srv.pongAt {
@@ -200,7 +210,11 @@ func c12TimedHistory(srv *c12Server, t0 time.Time, log []c12Timed, pinger bool) 
 	}
 	srv.mu.Unlock()
 	l.mu.Lock()
-	for _, t := range l.upAt[1:] {
+	ups := l.upAt
+	if authUp {
+		ups = l.authAt
+	}
+	for _, t := range ups[1:] {
 		log = append(log, c12Timed{t.Sub(t0), sx.L(sx.A("up"), sx.Nat(0))})
 	}
 	l.mu.Unlock()
@@ -504,9 +518,22 @@ const (
 // later the server behaves again for new connections, and the client has to get
 // out of the hole by itself within a bounded time; later calls succeed.
 func runC12BlackHole(phase, nconn int) (events []sx.V, fails []c12Fail, bad string) {
+	return runC12BlackHoleAuth(phase, nconn, false)
+}
+
+// with an auth key: every phase of the RE-connect's authentication can be swallowed
+// too: phase 3 = handshake answered, the auth request never is (silent server),
+// phase 4 = the server is alive but ignores tcp.authentificate, phase 5 = it answers
+// it with two nonce packets back to back, the first malformed
+func runC12BlackHoleAuth(phase, nconn int, auth bool) (events []sx.V, fails []c12Fail, bad string) {
 	const D = 300 * time.Millisecond
 	fail := func(key, what string) { fails = append(fails, c12Fail{key, what}) }
-	e, err := newC12Env(nconn, D)
+	var authKey ed25519.PrivateKey
+	if auth {
+		seed := sha256.Sum256([]byte("c12 auth key"))
+		authKey = ed25519.NewKeyFromSeed(seed[:])
+	}
+	e, err := newC12EnvAuth(nconn, D, authKey)
 	if err != nil {
 		return nil, nil, "env: " + err.Error()
 	}
@@ -567,7 +594,13 @@ func runC12BlackHole(phase, nconn int) (events []sx.V, fails []c12Fail, bad stri
 			return nil, fails, "warm-up call failed"
 		}
 	}
-	l.hs.Store(int32(phase))
+	if phase == 4 {
+		l.authHole.Store(1)
+	} else if phase == 5 { // two nonce packets back to back, the first malformed
+		l.authHole.Store(3)
+	} else {
+		l.hs.Store(int32(phase))
+	}
 	at(sx.L(sx.A("drop"), sx.Nat(0), sx.Nat(1)))
 	e.srv.drop(0, true)
 	time.Sleep(2 * time.Millisecond)
@@ -607,6 +640,7 @@ func runC12BlackHole(phase, nconn int) (events []sx.V, fails []c12Fail, bad stri
 	time.Sleep(time.Until(tRec.Add(c12HoleHeal)))
 	_, g0 := l.current()
 	l.hs.Store(0)
+	l.authHole.Store(0)
 	ok := c12Wait(time.Until(tRec.Add(c12HoleBound)), func() bool {
 		_, g := l.current()
 		if g <= g0 {
@@ -635,7 +669,173 @@ func runC12BlackHole(phase, nconn int) (events []sx.V, fails []c12Fail, bad stri
 		log = append(log, c12Timed{t.Sub(t0), sx.L(sx.A("dialfail"), sx.Nat(0))})
 	}
 	l.mu.Unlock()
-	events = c12TimedHistory(e.srv, t0, log, false)
+	events = c12TimedHistoryUp(e.srv, t0, log, false, auth)
 	events = append(events, sx.L(sx.A("reg"), sx.Nat(e.cl.VerifRegistrySize())))
 	return events, fails, bad
+}
+
+// runC12Storm: many callers with large queries hit a connection that the server
+// has just reset: every failed send starts `go c.reconnect()`, all contending for
+// Connection.mu with the senders.  Exactly one of them may re-establish the
+// connection: the server must never hold more than one live connection of this
+// client, and - the connection being fed by a call every 2.5 s - it must not see a
+// further connection during the 12 s after (an orphan's silence timer would tear
+// the healthy connection down).
+func runC12Storm(callers, size int) (fails []c12Fail, bad string) {
+	return runC12StormObs(callers, size, 12500*time.Millisecond)
+}
+
+func runC12StormShort(callers, size int) (fails []c12Fail, bad string) {
+	return runC12StormObs(callers, size, 0)
+}
+
+func runC12StormObs(callers, size int, observe time.Duration) (fails []c12Fail, bad string) {
+	const D = time.Second
+	fail := func(key, what string) { fails = append(fails, c12Fail{key, what}) }
+	e, err := newC12Env(1, D)
+	if err != nil {
+		return nil, "env: " + err.Error()
+	}
+	defer e.close()
+	l := e.srv.lns[0]
+	answered := func(i int) bool {
+		c := e.startCall(i, 0)
+		var q c12Query
+		if c12Wait(3*time.Second, func() bool { var ok bool; q, ok = e.srv.query(c.key); return ok || c.returned() }) {
+			if q2, ok := e.srv.query(c.key); ok {
+				q = q2
+				e.srv.emit(0, c12Answer(q.id, c12Data(uint64(i+1)<<11|8)))
+			}
+		}
+		return c.wait(D+c12Hang) && c.class() == c12Ok
+	}
+	if !answered(0) {
+		return nil, "warm-up call failed"
+	}
+	// the server stops reading: the first senders block in their write holding
+	// Connection.mu, the others queue on it; then the connection is reset
+	l.stall.Store(true)
+	calls := make([]*c12Call, callers)
+	for i := range calls {
+		calls[i] = e.startCall(1000+i, size)
+	}
+	time.Sleep(50 * time.Millisecond)
+	e.srv.drop(0, true)
+	l.stall.Store(false)
+	tDrop := time.Now()
+	for i, c := range calls {
+		if !c.wait(time.Until(c.start.Add(D + c12Hang))) {
+			fail("call-hangs", fmt.Sprintf("storm call %d has not returned %v after its deadline of %v", i, c12Hang, D))
+			return fails, "hang"
+		}
+	}
+	if !c12Wait(5*time.Second, func() bool {
+		st, answered := c12Status(e.conns[0])
+		return answered && st == liteclient.Connected
+	}) {
+		fail("no-reconnect", "the connection was not re-established within 5 s of the storm")
+		return fails, ""
+	}
+	time.Sleep(500 * time.Millisecond)
+	_, g1 := l.current()
+	if g1 < 2 {
+		return nil, "no send failed in the storm"
+	}
+	if n := l.open(); n != 1 {
+		fail("orphan-connection", fmt.Sprintf("%d callers x %d KiB on a reset connection: the server holds %d live connections of this client (%d handshakes since the reset); overlapping reconnect() calls all dialled", callers, size>>10, n, g1-1))
+	}
+	if g1-1 > 3 {
+		fail("reconnect-storm", fmt.Sprintf("%d handshakes for one reset connection", g1-1))
+	}
+	// observe for 12 s, feeding the connection
+	n := 1
+	for time.Since(tDrop) < observe {
+		time.Sleep(2500 * time.Millisecond)
+		if !answered(n) {
+			fail("later-call-fails", fmt.Sprintf("a call %v after the storm failed", time.Since(tDrop).Round(time.Second)))
+		}
+		n++
+	}
+	_, g2 := l.current()
+	if g2 != g1 {
+		fail("healthy-connection-dropped", fmt.Sprintf("%d further handshakes within %v of the reset without any new drop, on a connection that received an answer every 2.5 s", g2-g1, time.Since(tDrop).Round(time.Second)))
+	}
+	if n := l.open(); n != 1 {
+		fail("orphan-connection", fmt.Sprintf("%d live connections at the end of the observation", n))
+	}
+	return fails, ""
+}
+
+// runC12Overlap: k goroutines enter Connection.reconnect() together, as the
+// `go c.reconnect()` of k failed Sends, the pinger and the silence rule may do.
+// The handshake takes 150 ms, so all of them run while the first is at work.
+// Exactly one may dial: one new connection per round, one live connection.
+func runC12Overlap(rounds, k int) (fails []c12Fail, bad string) {
+	const D = time.Second
+	fail := func(key, what string) { fails = append(fails, c12Fail{key, what}) }
+	e, err := newC12Env(1, D)
+	if err != nil {
+		return nil, "env: " + err.Error()
+	}
+	defer e.close()
+	l := e.srv.lns[0]
+	answered := func(i int) bool {
+		c := e.startCall(i, 0)
+		var q c12Query
+		if c12Wait(3*time.Second, func() bool { var ok bool; q, ok = e.srv.query(c.key); return ok || c.returned() }) {
+			if q2, ok := e.srv.query(c.key); ok {
+				q = q2
+				e.srv.emit(0, c12Answer(q.id, c12Data(uint64(i+1)<<11|8)))
+			}
+		}
+		return c.wait(D+c12Hang) && c.class() == c12Ok
+	}
+	if !answered(0) {
+		return nil, "warm-up call failed"
+	}
+	l.hsDelay.Store(150)
+	for round := 0; round < rounds; round++ {
+		_, g0 := l.current()
+		var ready, start atomic.Int32
+		var wg sync.WaitGroup
+		for i := 0; i < k; i++ {
+			wg.Add(1)
+			go func() {
+				defer wg.Done()
+				ready.Add(1)
+				for start.Load() == 0 { // all k are running when released
+				}
+				e.conns[0].VerifC12Reconnect()
+			}()
+		}
+		for int(ready.Load()) < k {
+			runtime.Gosched()
+		}
+		start.Store(1)
+		done := make(chan struct{})
+		go func() { wg.Wait(); close(done) }()
+		select {
+		case <-done:
+		case <-time.After(10 * time.Second):
+			fail("reconnect-hangs", fmt.Sprintf("round %d: %d overlapping reconnect() calls have not all returned after 10 s", round, k))
+			return fails, ""
+		}
+		if !c12Wait(5*time.Second, func() bool {
+			st, answered := c12Status(e.conns[0])
+			return answered && st == liteclient.Connected
+		}) {
+			fail("no-reconnect", fmt.Sprintf("round %d: not connected again", round))
+			return fails, ""
+		}
+		time.Sleep(300 * time.Millisecond)
+		_, g1 := l.current()
+		if n := l.open(); g1-g0 != 1 || n != 1 {
+			fail("orphan-connection", fmt.Sprintf("round %d: %d overlapping reconnect() calls opened %d connections, %d stay open (1 and 1 expected): the check of the status and its update are not one critical section", round, k, g1-g0, n))
+			return fails, ""
+		}
+		if !answered(round + 1) {
+			fail("later-call-fails", fmt.Sprintf("round %d: the call after the reconnect failed", round))
+		}
+	}
+	return fails, ""
 }
